@@ -13,6 +13,16 @@ CLAIMED = {
          "as_words/from_words used to move operands across the wire. Bounded: operands <= ~100 words exactly; Toom-3 sizes only in the thorough tier.",
     technique="TLA+ definition-layer spec + TLC-generated cases replayed into the code + TLC trace validation",
     design="5.C01"),
+ "C02": dict(
+    text="The sign fix-up macros of every division form are transcribed into TLA+ (IntDivAlg) and model-checked exhaustively for "
+         "|a|,|b| <= 70 (160 thorough) against the truncating/Euclidean definitions; TLC constructs dividends a := q*b + r over divisor x "
+         "quotient size classes (single word, double word incl. powers of two, both sides of the divide-and-conquer switch) and the "
+         "library executes each in every form (/, %, div_rem, Euclidean, assign, primitives of all widths on either side, ConstDivisor, "
+         "is_multiple_of); the trace monitor recomputes (q, r) with an independent Knuth-D on byte limbs and re-asserts a = q*b + r.",
+    note="Trusted: TLC, BigNat!DivMod (guarded by the re-asserted identity, a flaw there is a tool error). Operands up to ~70 words. "
+         "Known finding F11/C02 (negative IBig % unsigned primitive panics) is matched by call form and input class.",
+    technique="TLA+ algorithm-layer model checked by TLC + TLC-generated cases replayed into the code + TLC trace validation",
+    design="5.C02"),
 }
 NA_REASON = "check not built yet in this round (planned, see DESIGN.md section 9)"
 
